@@ -57,10 +57,12 @@ func body(n int, salt byte) []byte {
 }
 
 // makeUnits builds the units of a frame: the first has the given header, the others a fixed one.
-func makeUnits(uc unitCase) [][]byte {
+func makeUnits(uc unitCase) [][]byte { return makeUnitsSalt(uc, 0) }
+
+func makeUnitsSalt(uc unitCase, salt byte) [][]byte {
 	var us [][]byte
 	for i, n := range uc.Sizes {
-		u := body(n, byte(i*17))
+		u := body(n, byte(i*17)^salt)
 		h := uc.Hdr
 		if i > 0 || len(h) == 0 {
 			if uc.Codec == "avc" {
@@ -281,6 +283,24 @@ func checkUnit(r *vk.Run, uc unitCase) {
 		}
 		rps = append(rps, rr)
 		raws = append(raws, p.Raw)
+	}
+	// the packets are handed to sessions that may queue them: packing the next frame must not change them
+	{
+		var held [][]byte
+		for _, b := range raws {
+			held = append(held, append([]byte{}, b...))
+		}
+		uc2 := uc
+		uc2.TimeMs += 40
+		in2 := base.AvPacket{PayloadType: pt(uc.Codec), Timestamp: uc2.TimeMs, Payload: frameBytes(uc2, makeUnitsSalt(uc2, 0x5a))}
+		pk.Pack(in2)
+		for i := range raws {
+			if !bytes.Equal(raws[i], held[i]) {
+				fail("held-packets-changed", "packet %d of this frame changed when the next frame was packed", i)
+				raws[i] = held[i]
+				rps[i], _ = ref.ParseRtp(held[i])
+			}
+		}
 	}
 	// reference depacketiser
 	var got []ref.Unit
